@@ -402,7 +402,7 @@ impl Scenario for GraphAllocScenario {
         if tier == "quick" {
             150_000
         } else {
-            3_000_000
+            20_000_000
         }
     }
     fn run(&self, src: &mut Source, obs: &mut Observer) -> Result<(), Violation> {
